@@ -3,3 +3,4 @@ import LettreVerif.Props.C19
 #print axioms LV.C19.relaxed_body_no_growth
 #print axioms LV.C19.relaxed_headers_no_growth
 #print axioms LV.C19.base64_length
+#print axioms LV.C19.base64_body_linear
